@@ -36,8 +36,13 @@ lane() {
   grep -rl '/repo' "$G" --include='*.rs' --include='*.toml' | xargs sed -i "s#/repo#$REPO#g"
   local BIN="$G/target/release/gensim"
   build() {
-    (cd "$G" && cargo build --release --offline --quiet 2>"$G/build.log") || return 1
-    (cd "$REPO/unic-langid-impl" && CARGO_TARGET_DIR="$G/target/realbins" cargo build --offline --quiet --features binary --bins 2>>"$G/build.log") || true
+    (cd "$G" && cargo build --release --offline --quiet 2>"$G/build.log") || \
+      (cd "$G" && cargo build --release --offline --quiet --no-default-features 2>"$G/build.log") || return 1
+    # real binaries: built from and run in a scratch copy of the lane's tree (as run.sh does)
+    rm -f "$G/target/realbins/debug/generate_layout" "$G/target/realbins/debug/generate_likelysubtags"
+    mkdir -p "$G/target/realws"
+    rsync -a --delete --delete-excluded --exclude /target --exclude /.git "$REPO/" "$G/target/realws/" 2>>"$G/build.log" && \
+      (cd "$G/target/realws/unic-langid-impl" && CARGO_TARGET_DIR="$G/target/realbins" cargo build --offline --quiet --features binary --bins 2>>"$G/build.log") || true
     return 0
   }
   for p in "$@"; do
@@ -58,7 +63,7 @@ lane() {
     else
       rm -rf "$OUT/replays"
       timeout 1500 "$BIN" check --tier quick --seed "${VERIF_SEED:-1}" --evidence "$OUT/ev.json" --replay-dir "$OUT/replays" \
-        --real-bins "$G/target/realbins/debug" >"$OUT/log" 2>&1; local rc=$?
+        --real-bins "$G/target/realbins/debug" --real-cwd "$G/target/realws/unic-langid-impl" >"$OUT/log" 2>&1; local rc=$?
       local viol first rp
       viol=$(grep -c '^VIOLATION' "$OUT/log")
       first=$(grep -m1 '^violation:' "$OUT/log" | cut -c1-140)
